@@ -207,6 +207,8 @@ def run(ctx):
     ctx.attempt(r174, ctx, rep, mod)
     ctx.attempt(r175, ctx, rep, mod)
     ctx.attempt(r176, ctx, rep, mod)
+    rep.rule('R17.7', 'the connection petl opens for a file name (todb / appenddb / fromdb) is a plain sqlite3.connect(<name>): no option that changes what is stored, read back or committed (detect_types, isolation_level, autocommit, factory ...)')
+    ctx.attempt(r177, ctx, rep, mod)
 
 
 def _check_impl(rep, fn, ctx=None):
@@ -286,18 +288,31 @@ def r173(ctx, rep, mod):
         if not loads:
             rep.violated('R17.3', fn, '_todb(...)', 'no call of _todb', fn.node)
             continue
-        # connections petl opens itself: locals bound to <module>.connect(...)
+        # (the function may hand the connection it opened to itself: `with closing(connect(f)) as c: todb(table, c, ...)`)
+        selfcalls = [c for c in _calls(fn.node) if norm(c.func) == fn.name and any(c is x for x in own_nodes(fn.node))]
+        # connections petl opens itself: locals bound to <module>.connect(...), directly or as the target of
+        # `with closing(<module>.connect(...)) as X`
         opened = set()
+        autoclosed = {}
+
+        def _is_connect(e):
+            return isinstance(e, ast.Call) and (norm(e.func).endswith('.connect') or norm(e.func) == 'connect')
         for x in own_nodes(fn.node):
-            if isinstance(x, ast.Assign) and isinstance(x.value, ast.Call) and \
-                    (norm(x.value.func).endswith('.connect') or norm(x.value.func) == 'connect'):
+            if isinstance(x, ast.Assign) and _is_connect(x.value):
                 for t in x.targets:
                     if isinstance(t, ast.Name):
                         opened.add(t.id)
+            elif isinstance(x, ast.With):
+                for item in x.items:
+                    e = item.context_expr
+                    if isinstance(e, ast.Call) and norm(e.func) in ('closing', 'contextlib.closing') and e.args and \
+                            _is_connect(e.args[0]) and isinstance(item.optional_vars, ast.Name):
+                        opened.add(item.optional_vars.id)
+                        autoclosed[item.optional_vars.id] = x
         if not opened:
             rep.violated('R17.3', fn, 'connect(...)', 'a file name is no longer turned into a connection', fn.node)
         n_owned = 0
-        for call in loads:
+        for call in loads + selfcalls:
             dbo = call.args[1] if len(call.args) > 1 else None
             for k in call.keywords:
                 if k.arg == 'dbo':
@@ -306,6 +321,9 @@ def r173(ctx, rep, mod):
                 continue        # the application's own handle: the application closes it
             n_owned += 1
             closed = False
+            w = autoclosed.get(dbo.id)
+            if w is not None and any(call is x for b in w.body for x in ast.walk(b)):
+                closed = True       # contextlib.closing closes on every exit of the block
             for p, c in enclosing(pm, call, stop=fn.node):
                 if isinstance(p, ast.Try) and any(c is b for b in p.body):
                     for s in p.finalbody:
@@ -453,3 +471,30 @@ def r176(ctx, rep, mod):
                                  'after a failure' % q, c)
     if n < 4:
         raise AnalysisError('anchor vanished: only %d commit sites in petl.io.db' % n)
+
+
+# ------------------------------------------------------------------------ R17.7
+def r177(ctx, rep, mod):
+    """What is read back through fromdb(<file name>) is what todb wrote only if both sides open the file the same, default
+    way: type detection converts text in DATE / TIMESTAMP columns on the way out, an isolation level of None commits every
+    statement."""
+    n = 0
+    for name in ('fromdb', 'todb', 'appenddb'):
+        fn = mod.functions.get(name)
+        if fn is None:
+            raise AnalysisError('anchor vanished: petl.io.db:%s' % name)
+        for c in _calls(fn.node):
+            if not (norm(c.func).endswith('.connect') or norm(c.func) == 'connect'):
+                continue
+            n += 1
+            extra = [norm(a)[:30] for a in c.args[1:]] + ['%s=%s' % (k.arg, norm(k.value)[:30]) for k in c.keywords if k.arg] + \
+                ['**%s' % norm(k.value) for k in c.keywords if k.arg is None]
+            if extra:
+                rep.violated('R17.7', fn, norm(c)[:70],
+                             'the convenience connection is opened with %s: values are converted / statements committed differently '
+                             'from a plain connection, so what is read back (or left after a failure) is not what a caller with a '
+                             'connection of their own gets' % ', '.join(extra), c)
+            else:
+                rep.held('R17.7', fn, norm(c)[:70], 'plain connection', c)
+    if n < 3:
+        raise AnalysisError('anchor vanished: only %d connect() calls in fromdb / todb / appenddb' % n)
